@@ -18,8 +18,8 @@ import (
 	"strings"
 	"time"
 
-	"github.com/go-text/typesetting/fontscan"
 	td "github.com/go-text/typesetting-utils/opentype"
+	"github.com/go-text/typesetting/fontscan"
 )
 
 type fiOp struct {
